@@ -268,6 +268,16 @@ let handle_t = function
   | _ -> failwith "bad T line"
 
 
+(* V <id> <script tokens>: Value::deserialize then Value::serialize *)
+let handle_v = function
+  | id :: toks ->
+      let sc, _ = parse_script toks in
+      (match value_roundtrip sc with
+      | Ok cs -> Printf.sprintf "%s ok | %s" id (String.concat " " (List.map show_call cs))
+      | Err (DE i) -> Printf.sprintf "%s de:%d | " id (int_of_nat i)
+      | Err DSyn -> Printf.sprintf "%s de:syn | " id)
+  | _ -> failwith "bad V line"
+
 (* ---------- FT: a Translator over a history of calls ----------
    FT <id> <json|msgpack|toml|yaml> <call>;<call>;...   call = <1|0>:<doc>,<doc>,...   doc = o<hex> | r<hex> *)
 
@@ -390,6 +400,7 @@ let () =
           | "CP" :: rest -> handle_cp rest
           | "CR" :: rest -> handle_cr rest
           | "T" :: rest -> handle_t rest
+          | "V" :: rest -> handle_v rest
           | "UD" :: rest -> handle_ud rest
           | "UR" :: rest -> handle_ur rest
           | "MT" :: rest -> handle_mt rest
